@@ -281,6 +281,8 @@ def call_class(cost_obj, X, beta, m, n_train=None):
     det = PELT(cost=cost_obj, penalty_scale=scale, min_segment_length=m)
     train = X if n_train == n else np.vstack([X, X, X])[:n_train]
     df = rot_frame(X, 7)
+    if p == 1 and n % 2 == 0:
+        df = df.iloc[:, 0]                     # a univariate series handed over as a pd.Series (with the rotating row labels)
     # history: an earlier fit on data of another length (other penalty) followed by scoring the same frame must leave no trace
     det.fit(pd.DataFrame(np.vstack([X, X])[: n + 3]))
     det.transform_scores(df)
@@ -290,6 +292,8 @@ def call_class(cost_obj, X, beta, m, n_train=None):
     # ... and on the SAME fit: calls on another series with an equal index (same length, default RangeIndex) in between; what they computed
     # describes that series, not df
     other = pd.DataFrame(np.ascontiguousarray(X[::-1]) * 1.5 + 0.25, index=df.index)
+    if isinstance(df, pd.Series):
+        other = other.iloc[:, 0]
     det.predict(other)
     det.transform_scores(other)
     ts = np.asarray(det.transform_scores(df), dtype=float).reshape(-1)        # nothing of the earlier calls may be reused
